@@ -3,6 +3,7 @@ import ChmpyVerif.Model.Proto
 import ChmpyVerif.Props.C01
 import ChmpyVerif.Props.C02
 import ChmpyVerif.Props.C03
+import ChmpyVerif.Props.C04
 import ChmpyVerif.Props.C05
 import ChmpyVerif.Props.C10
 import ChmpyVerif.Props.C11
